@@ -75,6 +75,9 @@ def run(chk):
     pc.run_policy_check(chk, "C15", "proj_P12", {"p_hook_fault": 0.9, "p_metric": 0.95, "p_log": 0.8, "p_no_retry": 0.2}, oracle_pid="none",
                         theorems_ok=ok, cov_key="policy_breaker_events", n_quick=200, n_thorough=3000, extra_oracle=ptwin)
     chk.coverage["policy_hook_fault_scripts_compared_with_silent_twin"] = pinfo.get("faulty", 0)
+    if ok:
+        import source_tie
+        source_tie.runner_ties(chk, "scripted call sequences with hook faults at every invocation index and their silent twins: no property violation found")
 
 
 def replay(path):
